@@ -77,6 +77,8 @@ def sym_multirun(nruns, workers, ignore_errors, targets="m1"):
             got = st.get_array(runs, tg, max_workers=workers, ignore_errors=ignore_errors, processor="single_thread")
         except ZeroDivisionError as e:
             raised = e
+        except ValueError as e:
+            prove(False, f"multirun:raised {type(e).__name__}: {str(e)[:60]}")
         order = list(ctx.StubPool.order)
     finally:
         inj.restore()
@@ -98,11 +100,7 @@ def sym_multirun(nruns, workers, ignore_errors, targets="m1"):
 
 
 def nat_multirun(params, model):
-    inj = ctx.setup()
-    try:
-        label = core.concrete_run(lambda: sym_multirun(**params), model)
-    finally:
-        inj.restore()
+    label = core.concrete_run(lambda: sym_multirun(**params), model)  # no shims: native numba / numpy
     if label is None:
         return {"ok": True, "detail": "equals sequential loading"}
     return {"ok": False, "detail": label, "label": label}
@@ -219,11 +217,7 @@ def sym_interfere(budget, warm, window=8):
 
 
 def nat_interfere(params, model):
-    inj = ctx.setup()
-    try:
-        label = core.concrete_run(lambda: sym_interfere(**params), model)
-    finally:
-        inj.restore()
+    label = core.concrete_run(lambda: sym_interfere(**params), model)  # no shims: native numba / numpy
     if label is None:
         return {"ok": True, "detail": "no disturbance"}
     return {"ok": False, "detail": label, "label": label}
